@@ -8,7 +8,7 @@ from rustcut import AnchorLost, code_mask, match_brace
 
 CLAUSE_KEYS = ('requires', 'ensures', 'decreases', 'invariant', 'invariant_except_break',
                'proof_entry', 'proof_loop_entry', 'external_body', 'loop_ensures', 'opaque_body', 'fuel',
-               'attr', 'annotate', 'iter_name', 'proof', 'returns')
+               'attr', 'annotate', 'iter_name', 'proof', 'returns', 'ensures_optional')
 
 
 class SpecError(Exception):
@@ -21,6 +21,8 @@ class Loops(dict):
         dict.__init__(self)
         self.closures = {}
         self.hints = {}
+        self.names = {}            # names[fn] = [(placeholder, kind, argument)]
+        self.dropped_optional = set()   # ids of optional clauses pruned so far (Houdini), set by the caller between rounds
 
 
 def parse_spec(text):
@@ -48,6 +50,18 @@ def parse_spec(text):
             nm, k = st[9:].strip().split('#')
             cur = loops.closures.setdefault((nm, int(k)), {})
             key = None
+            continue
+        if st.startswith('@names '):
+            cur = None
+            key = None
+            names_fn = st[7:].strip()
+            loops.names.setdefault(names_fn, [])
+            continue
+        if cur is None and st.startswith('$'):
+            # inside an @names section:  $raw = let self\.tokens_raw   |   $n = closure 0 param 0   |   $ev = loopvar 1
+            ph, _, rhs = st.partition('=')
+            kind, _, arg = rhs.strip().partition(' ')
+            loops.names[names_fn].append((ph.strip(), kind, arg.strip()))
             continue
         if st.startswith('@hint '):
             # @hint FN before|after CALLEE[#k] | loop#k
@@ -219,10 +233,66 @@ def stmt_end(body, mask, idx):
     return len(body)
 
 
+def strip_comments(text):
+    m = code_mask(text)
+    # keep string/char literals (they are masked too) out of the way as well: only used to match `let X =` prefixes
+    return ''.join(c if ok else ' ' for c, ok in zip(text, m))
+
+
+def resolve_names(name, body, names_spec):
+    """-> dict placeholder -> identifier, for the `@names FN` section: names of locals are looked up positionally
+    (by what they are initialised with / which closure parameter / which loop variable they are), so that renaming a
+    local does not disturb a contract."""
+    res = {}
+    code = strip_comments(body)
+    closures = None
+    for ph, kind, arg in names_spec:
+        if kind == 'let':
+            pat = arg
+            for k, v in res.items():
+                pat = pat.replace(k, re.escape(v))
+            mm = re.search(r'\blet\s+(?:mut\s+)?(\w+)\s*(?::[^=;]+)?=\s*' + pat + r'\s*;', code)
+            if not mm:
+                raise AnchorLost('%s: no `let X = %s;` for the contract placeholder %s' % (name, arg, ph))
+            res[ph] = mm.group(1)
+        elif kind == 'closure':
+            mm = re.match(r'(\d+)\s+param\s+(\d+)$', arg)
+            closures = closures or find_closures(body)
+            k, j = int(mm.group(1)), int(mm.group(2))
+            if k >= len(closures):
+                raise AnchorLost('%s: placeholder %s refers to closure #%d' % (name, ph, k))
+            params = [x.strip() for x in body[closures[k][0]:closures[k][1]].split(',')]
+            if j >= len(params):
+                raise AnchorLost('%s: placeholder %s refers to parameter %d of closure #%d' % (name, ph, j, k))
+            res[ph] = re.match(r'(?:mut\s+)?(\w+)', params[j]).group(1)
+        elif kind == 'loopvar':
+            loops = find_loops(body)
+            k = int(arg)
+            if k >= len(loops):
+                raise AnchorLost('%s: placeholder %s refers to loop #%d' % (name, ph, k))
+            mm = re.match(r'for\s+(\w+)\s+in\b', body[loops[k][0]:])
+            if not mm:
+                raise AnchorLost('%s: loop #%d is not a `for X in ..` loop (placeholder %s)' % (name, k, ph))
+            res[ph] = mm.group(1)
+        else:
+            raise SpecError('unknown @names kind: ' + kind)
+    return res
+
+
+def subst_names(text, names):
+    for ph in sorted(names, key=len, reverse=True):
+        text = re.sub(re.escape(ph) + r'\b', names[ph], text)
+    return text
+
+
 def weave_body(name, body, loops_spec, proof_entry, used, fn_need=None):
     loops = find_loops(body)
     mask = code_mask(body)
     orig_body = body
+    names = resolve_names(name, body, getattr(loops_spec, 'names', {}).get(name, []))
+    dropped_opt = getattr(loops_spec, 'dropped_optional', set())
+    if proof_entry:
+        proof_entry = subst_names(proof_entry, names)
     edits = []   # (position, replaced_length, text); applied from the back so positions stay valid
     # a @loop entry whose loop no longer exists is dropped (recorded by assemble), not fatal: the function is then
     # verified against its own contract with whatever loops it has now
@@ -232,7 +302,7 @@ def weave_body(name, body, loops_spec, proof_entry, used, fn_need=None):
         if not sp:
             continue
         used.add((name, k))
-        sp = {key: resolve_marks(name, orig_body, val) for key, val in sp.items()}
+        sp = {key: subst_names(resolve_marks(name, orig_body, val), names) for key, val in sp.items()}
         if sp.get('fuel'):
             # `fuel Nh Ah Ne Ae`: fuel_ok(.., Nh, Ah) at the loop head (before the condition is evaluated),
             # fuel_ok(.., Ne, Ae) at every exit (condition false or break): the look-aheads of the condition and of the
@@ -267,9 +337,20 @@ def weave_body(name, body, loops_spec, proof_entry, used, fn_need=None):
     closures = find_closures(orig_body)
     for k, (ps, pe, br, be, is_block) in enumerate(closures):
         sp = getattr(loops_spec, 'closures', {}).get((name, k))
+        if not sp and re.search(r'verif_range_take_while_count\s*\([^()|]*$', orig_body[:ps - 1]):
+            # group anchor `@closure FN#-1`: every closure that is the predicate of a take_while/count chain (R11)
+            sp = getattr(loops_spec, 'closures', {}).get((name, -1))
+            if sp:
+                used.add((name, 'closure', -1))
         if not sp:
             continue
         used.add((name, 'closure', k))
+        pnames = dict(names)
+        for j, prm in enumerate(x.strip() for x in orig_body[ps:pe].split(',')):
+            pm = re.match(r'(?:mut\s+)?(\w+)', prm)
+            if pm:
+                pnames['$p%d' % j] = pm.group(1)
+        sp = {key: subst_names(val, pnames) for key, val in sp.items()}
         if sp.get('annotate'):
             params = orig_body[ps:pe]
             for ann in sp['annotate'].split(';'):
@@ -280,8 +361,13 @@ def weave_body(name, body, loops_spec, proof_entry, used, fn_need=None):
             edits.append((ps, pe - ps, params))
         cl = []
         for key in ('requires', 'ensures'):
-            if sp.get(key):
-                cl.append('            %s %s' % (key, sp[key].rstrip(',') + ','))
+            if sp.get(key) or (key == 'ensures' and sp.get('ensures_optional')):
+                cl.append('            %s %s' % (key, (sp.get(key, '').rstrip(',') + ',') if sp.get(key) else ''))
+                if key == 'ensures':
+                    for n_, oc in enumerate(split_top(sp.get('ensures_optional', ''))):
+                        oid = 'opt:%s:closure%d:%d' % (name, k, n_)
+                        if oc.strip() and oid not in dropped_opt:
+                            cl.append('                %s, /*@%s*/' % (oc.strip(), oid))
         ret = ' -> %s' % sp['returns'].strip() if sp.get('returns') else ''
         if is_block:
             if cl or ret:
@@ -293,7 +379,7 @@ def weave_body(name, body, loops_spec, proof_entry, used, fn_need=None):
             edits.append((be, 0, ' }'))
     # ---- proof hints at positional anchors (call ordinal / loop ordinal)
     for where, target, sp in getattr(loops_spec, 'hints', {}).get(name, []):
-        text = sp.get('proof', '')
+        text = subst_names(sp.get('proof', ''), names)
         used.add((name, 'hint', where, target))
         if target.startswith('loop#'):
             k = int(target[5:])
@@ -327,7 +413,7 @@ def weave_body(name, body, loops_spec, proof_entry, used, fn_need=None):
             rm = re.search(r'([\w\.]+)\s*\.\s*$', orig_body[:mm.start()])
             t = t.replace('$recv', rm.group(1) if rm else '')
             if '$lhs' in t:
-                lm = re.match(r'\s*let\s+(?:mut\s+)?(\w+)\s*=', orig_body[stmt_start(orig_body, mask, mm.start()):mm.start()])
+                lm = re.match(r'\s*let\s+(?:mut\s+)?(\w+)\s*=', strip_comments(orig_body)[stmt_start(orig_body, mask, mm.start()):mm.start()])
                 if not lm:
                     raise AnchorLost('%s: @hint %s uses $lhs but the call is not the initialiser of a `let`' % (name, target))
                 t = t.replace('$lhs', lm.group(1))
@@ -352,6 +438,12 @@ def candidate_contract(item):
     ensures candidate that the body does not establish are dropped) until nothing changes."""
     mm = re.search(r'\(\s*(p|self)\s*:\s*&mut\s+Parser', item.header) or (re.search(r'\(\s*&mut self', item.header) and item.owner == 'Parser')
     if not mm:
+        # a helper that only builds a value: if its body is a single literal (enum / struct literal or path, no calls),
+        # the candidate says so - `fn pending_open(&self) -> Event { Event::Open { kind: ERROR } }`
+        body = item.body.strip()
+        inner = strip_comments(body[1:-1]).strip() if body.startswith('{') and body.endswith('}') else ''
+        if inner and re.search(r'->', item.header) and re.match(r'^[\w:]+(\s*\{[^(){};]*\})?$', inner, re.S):
+            return {'fixed_requires': [], 'fixed_ensures': [], 'requires': [], 'ensures': ['r == (%s)' % ' '.join(inner.split())]}
         return None
     v = 'self' if item.owner == 'Parser' else 'p'
     marks = re.findall(r'(\w+)\s*:\s*MarkOpened', item.header)
@@ -361,6 +453,7 @@ def candidate_contract(item):
          'fixed_ensures': ['lp(*old(%s), *final(%s), %d)' % (v, v, d)],
          'requires': ['old(%s).pos < old(%s).tokens@.len()' % (v, v)],
          'ensures': ['prog(*old(%s), *final(%s))' % (v, v), 'final(%s).pos == old(%s).pos + 1' % (v, v),
+                     'old(%s).pos < old(%s).tokens@.len() ==> prog(*old(%s), *final(%s))' % (v, v, v, v),
                      'final(%s).pos == old(%s).pos' % (v, v),
                      'EXPR_FIRST_spec(old(%s).cur()) ==> prog(*old(%s), *final(%s))' % (v, v, v),
                      'PATTERN_FIRST_spec(old(%s).cur()) ==> prog(*old(%s), *final(%s))' % (v, v, v),
@@ -371,7 +464,7 @@ def candidate_contract(item):
     c['ensures'] += ['final(%s).pos > old(%s).pos ==> final(%s).fuel >= FUEL - (%d + 9 * (MAX_DEPTH + 1 - old(%s).depth))' % (v, v, v, a, v)
                      for a in (0, 1, 2, 3, 4, 6, 8, 10, 12, 16)]
     for m in marks:
-        c['fixed_requires'] += ['open_at(*old(%s), %s)' % (v, m), 'depth(old(%s).events@) >= 1' % v]
+        c['fixed_requires'] += ['open_at(*old(%s), %s)' % (v, m), 'depth(old(%s).events@) >= 2' % v]
     for m in closed:
         c['requires'].append('%s.index <= old(%s).events@.len()' % (m, v))
     lead = re.match(r'\{\s*assert!\(\s*(?:p|self)\.at\(\s*(SyntaxKind::\w+)\s*\)\s*\)\s*;', item.body)
@@ -421,9 +514,17 @@ def emit_fn(item, fns_spec, loops_spec, used_fn, used_loop, defaulted, inferred=
     if sp.get('attr'):
         lines.append(sp['attr'])
     lines.append(header)
+    fnames = resolve_names(item.name, item.body, getattr(loops_spec, 'names', {}).get(item.name, []))
+    dropped_opt = getattr(loops_spec, 'dropped_optional', set())
     for key in ('requires', 'ensures', 'decreases'):
-        if sp.get(key):
-            lines.append('    %s %s' % (key, sp[key].rstrip(',') + ','))
+        if sp.get(key) or (key == 'ensures' and sp.get('ensures_optional')):
+            lines.append('    %s %s' % (key, (subst_names(sp[key], fnames).rstrip(',') + ',') if sp.get(key) else ''))
+            if key == 'ensures':
+                # optional clauses (one per line, each with its id): pruned Houdini-style when the body does not establish them
+                for n_, oc in enumerate(split_top(sp.get('ensures_optional', ''))):
+                    oid = 'opt:%s:%d' % (item.name, n_)
+                    if oc.strip() and oid not in dropped_opt:
+                        lines.append('        %s, /*@%s*/' % (subst_names(oc.strip(), fnames), oid))
     body = weave_body(item.name, item.body, loops_spec, sp.get('proof_entry'), used_loop, fn_need)
     return '\n'.join(lines) + '\n' + body + '\n'
 
@@ -466,7 +567,7 @@ def emit_const(item):
     return spec + exec_
 
 
-def assemble(ex, prelude, fns_spec, loops_spec, stubs, top=None, inferred=None, with_bt=True):
+def assemble(ex, prelude, fns_spec, loops_spec, stubs, top=None, inferred=None, with_bt=True, only_bt=False):
     """-> (unit text, linemap [(unit_line, repo_path, repo_line, item name)], info)"""
     used_fn, used_loop, defaulted = set(), set(), []
     chunks = []   # (text, item or None)
@@ -479,6 +580,12 @@ def assemble(ex, prelude, fns_spec, loops_spec, stubs, top=None, inferred=None, 
         # fallback: the tree builder stays outside the Verus unit (its text is not within reach of the rewrites R11/R12);
         # the bounded Kani harnesses are then the only check of Parser::build_tree
         items = [it for it in items if it.name != 'Parser::build_tree']
+    if only_bt:
+        # reduced unit: the tree builder and the kind predicates only (used to prune optional clauses cheaply)
+        items = [it for it in items if it.kind != 'fn' or it.name == 'Parser::build_tree'
+                 or (it.owner == 'SyntaxKind' and it.path.endswith('kind.rs'))]
+        items = [it for it in items if it.kind != 'const']
+        top = None
     for it in items:
         if it.kind == 'type':
             chunks.append((it.text + '\n', it))
@@ -505,17 +612,21 @@ def assemble(ex, prelude, fns_spec, loops_spec, stubs, top=None, inferred=None, 
     names = set(it.name for it in items if it.kind == 'fn')
     dropped_anchors = []
     for nm in fns_spec:
+        if only_bt:
+            break
         if nm == 'Parser::build_tree' and not with_bt:
             continue
         if nm not in names:
             if nm in CORE_FNS:
                 raise AnchorLost('@fn %s: no such function in the working tree' % nm)
             dropped_anchors.append('@fn %s' % nm)
+    if not with_bt:
+        used_loop |= set(k for k in loops_spec if k[0] == 'Parser::build_tree')
+    if only_bt:
+        used_loop |= set(loops_spec)
     for key in loops_spec:
         if key not in used_loop:
             dropped_anchors.append('@loop %s#%d' % key)
-    if not with_bt:
-        used_loop |= set(k for k in loops_spec if k[0] == 'Parser::build_tree')
     for key in getattr(loops_spec, 'closures', {}):
         if key[0] == 'Parser::build_tree' and not with_bt:
             continue
